@@ -10,6 +10,7 @@ from vf import xh
 
 H = os.path.join(C.VERIF, "harness", "C18_str.py")
 HN = os.path.join(C.VERIF, "harness", "C18_num.py")
+HOPS = os.path.join(C.VERIF, "harness", "C18_ops.py")
 
 
 def _cond(name, params, pres, body, replay_body):
@@ -170,6 +171,7 @@ def run(rep: C.Report) -> None:
         twins=False,
     )
     pad_limit(rep)
+    run_ops(rep, quick)
     run_num(rep, quick)
     expr_precedence(rep)
 
@@ -383,6 +385,152 @@ def expr_precedence(rep: C.Report) -> None:
             ob.detail = f"ladder orders {bad_pairs[:4]} differently from the documentation but no operand triple shows a different value -> inconclusive"
     except Exception as e:  # noqa: BLE001
         ob.detail += f"{type(e).__name__}: {e}"
+
+
+OPS_CONDS = '''
+def opv_arith(x: int, y: int) -> bool:
+    """
+    pre: -12 <= x <= 12 and -12 <= y <= 12
+    post: _
+    """
+    return (
+        same_num(op("binary_mul_fns", "*")(x, y), x * y)
+        and same_num(op("binary_add_fns", "+")(x, y), x + y)
+        and same_num(op("binary_add_fns", "-")(x, y), x - y)
+        and same_num(op("unary_fns", "-")(x), -x)
+        and same_num(op("unary_fns", "abs")(x), x if x >= 0 else -x)
+        and same_num(op("unary_fns", "not")(x), 1 if x == 0 else 0)
+    )
+
+
+def opv_cmp(x: int, y: int) -> bool:
+    """
+    pre: -3 <= x <= 3 and -3 <= y <= 3
+    post: _
+    """
+    t = P.binary_cmp_fns
+    return (
+        t["="](x, y) == (1 if x == y else 0)
+        and t["!="](x, y) == (1 if x != y else 0)
+        and t["<>"](x, y) == (1 if x != y else 0)
+        and t["<"](x, y) == (1 if x < y else 0)
+        and t[">"](x, y) == (1 if x > y else 0)
+        and t["<="](x, y) == (1 if x <= y else 0)
+        and t[">="](x, y) == (1 if x >= y else 0)
+        and P.binary_and_fns["and"](x, y) == (1 if (x != 0 and y != 0) else 0)
+        and P.binary_or_fns["or"](x, y) == (1 if (x != 0 or y != 0) else 0)
+    )
+
+
+def _rp_op(expr, want):
+    from wikitextprocessor import Wtp
+
+    w = Wtp(quiet=True, quiet_output=True)
+    w.start_page("T")
+    got = w.expand("{{#expr:" + expr + "}}")
+    bad = ("rror" not in got and "zero" not in got) if want == "ERR" else (got != str(want))
+    return ("expand(" + repr("{{#expr:" + expr + "}}") + ")", bad, f"result {got!r}, the documented value is {want!r}")
+
+
+'''
+
+
+def gen_ops(quick: bool) -> str:
+    """second operand (divisor / digit count) enumerated by the generator: a symbolic divisor makes the queries non-linear"""
+    out = []
+    Y = range(-4, 5) if quick else range(-9, 10)
+    for y in Y:
+        t = f"m{-y}" if y < 0 else str(y)
+        out.append(f'''
+def opv_mod_{t}(x: int, fx: bool) -> bool:
+    """
+    pre: -40 <= x <= 40
+    post: _
+    """
+    xv = x + 0.5 if fx else x
+    got = op("binary_mul_fns", "mod")(xv, {y})
+    want = ref_mod(xv, {y})
+    return is_err(got) if want == "ERR" else same_num(got, want)
+
+
+def replay_opv_mod_{t}(x, fx):
+    xv = x + 0.5 if fx else x
+    return _rp_op(f"{{xv}} mod {y}", ref_mod(xv, {y}))
+
+
+def opv_modf_{t}(x: int) -> bool:
+    """
+    pre: -40 <= x <= 40
+    post: _
+    """
+    # a fractional divisor is truncated first
+    yv = {y} + (0.5 if {y} >= 0 else -0.5)
+    got = op("binary_mul_fns", "mod")(x, yv)
+    want = ref_mod(x, yv)
+    return is_err(got) if want == "ERR" else same_num(got, want)
+
+
+def replay_opv_modf_{t}(x):
+    yv = {y} + (0.5 if {y} >= 0 else -0.5)
+    return _rp_op(f"{{x}} mod {{yv}}", ref_mod(x, yv))
+
+
+def opv_div_{t}(x: int) -> bool:
+    """
+    pre: -40 <= x <= 40
+    post: _
+    """
+    for name in ("/", "div"):
+        got = op("binary_mul_fns", name)(x, {y})
+        if {y} == 0:
+            if not is_err(got):
+                return False
+        elif is_err(got) or got != x / {y}:
+            return False
+    return True
+''')
+    for d in range(-2, 3):
+        t = f"m{-d}" if d < 0 else str(d)
+        out.append(f'''
+def opv_round_{t}(x: int) -> bool:
+    """
+    pre: -300 <= x <= 300
+    post: _
+    """
+    return same_num(op("binary_round_fns", "round")(x, {d}), ref_round_int(x, {d}))
+
+
+def replay_opv_round_{t}(x):
+    return _rp_op(f"{{x}} round {d}", ref_round_int(x, {d}))
+''')
+    for k in range(-9, 10):
+        t = f"m{-k}" if k < 0 else str(k)
+        out.append(f'''
+def opv_half_{t}(d: int) -> bool:
+    """
+    pre: d == 0
+    post: _
+    """
+    return same_num(op("binary_round_fns", "round")({k} / 2, d), ref_round_half({k}))
+
+
+def replay_opv_half_{t}(d):
+    return _rp_op("{k / 2} round 0", ref_round_half({k}))
+''')
+    return "\n".join(out)
+
+
+def run_ops(rep: C.Report, quick: bool) -> None:
+    src = open(HOPS).read() + "\n" + OPS_CONDS + "\n" + gen_ops(quick)
+    xh.check_harness(
+        rep,
+        HOPS,
+        {"^opv_": dict(name="Ob5 #expr operators compute the documented values (mod, round, division, arithmetic, comparison, logic)", functions=["parserfns.py: binary_mul_fns, binary_add_fns, binary_round_fns, binary_cmp_fns, binary_and_fns, binary_or_fns, unary_fns"], bounds="first operand symbolic in [-40,40] (round: [-300,300]), second operand enumerated (divisors -4..4, thorough -9..9; digits -2..2); halves k/2 for |k| <= 9; mod also with a .5 fraction on either operand")},
+        timeout=120 if quick else 400,
+        src=src,
+        batch=1,
+        twins=False,
+    )
 
 
 def run_num(rep: C.Report, quick: bool) -> None:
